@@ -45,6 +45,8 @@ ConstExp(api, n, l, m, ety) ==
       [] api = "slice_from_chunks_mut" -> ok1(m * n, SumPoked(1, m * n, ety))
       [] api = "array_roundtrip" -> <<0, n, SumCells(1, n, ety), n, SumCells(1, n, ety), -1>>
       [] api = "uninit_assume_init" -> ok1(n, SumCells(1, n, ety))
+      \* const_transmute::<[u8; 4n], [u32; n]>: n words, each the same byte pattern (summed as n ones)
+      [] api = "const_transmute" -> ok1(n, n)
 
 ConstRtOK(r) ==
     /\ r.cv = r.rv                                             \* compile time = run time
